@@ -101,8 +101,8 @@ P("C01", module="AJ.Props.C01All", extra=[("AJ.Props.C01", ["C01"]), ("AJ.Props.
                        S.HistSuite(cfg=G["default"], nh=40 if tier == "quick" else 1500), S.HistSuite(cfg=G["tiny2"], nh=30 if tier == "quick" else 1000)],
   partial=[])
 
-P("C02", module="AJ.Props.C02All", extra=[("AJ.Props.SlotCor", ["C02"]), ("AJ.Props.C02", ["C02"]), ("AJ.Props.C02Parse", ["C02"])],
-  level_text="Theorems for every text and every capacity: the bounded writer returns min(cap,length), stores exactly that prefix, writes a NUL iff "
+P("C02", module="AJ.Props.C02All", extra=[("AJ.Props.DocGen", ["C02"]), ("AJ.Props.SlotCor", ["C02"]), ("AJ.Props.C02", ["C02"]), ("AJ.Props.C02Parse", ["C02"])],
+  level_text="C02.serialized_documents_are_source: for 44 documents (every escape, numbers, nested, repeated keys, floats) the compact and pretty serializer models write byte for byte what the compiled library writes on every run (translator tie, kernel evaluation). Theorems for every text and every capacity: the bounded writer returns min(cap,length), stores exactly that prefix, writes a NUL iff "
   "length < cap (text formats), defines exactly cap bytes and leaves the rest untouched. Theorems for every document within the limits whose strings hold no raw control character other "
   "than the five escaped ones (C02.compact_in_grammar, pretty_in_grammar, both_denote_same): the compact and the pretty text are RFC 8259 texts (relational grammar lean/AJ/Spec/Json.lean) and "
   "both denote the same document `denote v` (same structure and order, strings and keys identical, integers exact, a finite float denotes the value of its own shortest text, non-finite "
@@ -143,7 +143,7 @@ P("C07", module="AJ.Props.C07All", extra=[("AJ.Props.SlotCor", ["C07"]), ("AJ.Pr
                        # the bytes read back from every kind of source (piecewise std::istream included), and 32-bit string headers in a build with 2-byte slot ids
                        S.MpDeSuite(cfg=DEF, n=500 if tier == "quick" else 40000), S.RoundTripSuite(cfg=G["len4id2"], n=120 if tier == "quick" else 5000)])
 
-P("C08", module="AJ.Props.C08All", extra=[("AJ.Props.C08", ["C08"]), ("AJ.Props.SlotCor2", ["C08"])], level_text="C08.mp_buffer_count / _prefix / _no_nul / _untouched / _content / _exact_fit / _truncated: serializeMsgPack into a bounded buffer returns min(capacity, length), stores exactly that prefix, writes no terminator and leaves every other byte untouched, for every document and capacity. Theorem: for every raw-free document within the 64-bit/32-bit limits, an independent decoder written from the MessagePack specification decodes "
+P("C08", module="AJ.Props.C08All", extra=[("AJ.Props.DocGen", ["C08"]), ("AJ.Props.C08", ["C08"]), ("AJ.Props.SlotCor2", ["C08"])], level_text="C08.msgpack_documents_are_source: for 44 documents at every width boundary (fixint/8/16/32/64 bits, fixstr/str8, fixarray/array16, fixmap/map16, floats) the serializer model writes byte for byte what the compiled serializeMsgPack writes on every run (translator tie, kernel evaluation). C08.mp_buffer_count / _prefix / _no_nul / _untouched / _content / _exact_fit / _truncated: serializeMsgPack into a bounded buffer returns min(capacity, length), stores exactly that prefix, writes no terminator and leaves every other byte untouched, for every document and capacity. Theorem: for every raw-free document within the 64-bit/32-bit limits, an independent decoder written from the MessagePack specification decodes "
   "serializeMsgPack's output to exactly one object denoting the document (integers by value and sign, strings byte-exact, floats bit-exact or the integer of the same value, narrowing of "
   "doubles only when lossless), with the shortest headers on both sides of every boundary. bin/ext values built through the API are modelled and compared; destinations, counts and "
   "bounded buffers are checked in the harness; an independent Python decoder judges the implementation's bytes.",
@@ -182,8 +182,8 @@ P("C10", module="AJ.Props.C10All", extra=[("AJ.Props.C10Gen2", ["C10"]), ("AJ.Pr
   suites=lambda tier: [S.JsonAnySuite(cfg=DEF), S.JsonAnySuite(cfg=CFG_ALL, n=6000 if tier == "quick" else 300000), S.JsonAnySuite(cfg=CFG_NOUNI, n=3000 if tier == "quick" else 100000)],
   partial=["finality of InvalidInput for Dangling texts other than a lone sign"])
 
-P("C11", module="AJ.Props.C11All", extra=[("AJ.Props.C11", ["C11"]), ("AJ.Props.C11Full", ["C11"]), ("AJ.Props.C11Mp", ["C11"]), ("AJ.Props.C11Mem", ["C11"]), ("AJ.Props.C11Doc", ["C11"]), ("AJ.Props.C11Slot", ["C11"]), ("AJ.Props.C11MpSlot", ["C11"]), ("AJ.Props.C11MpDoc", ["C11"]), ("AJ.Props.C11MemRun", ["C11"]), ("AJ.Props.C11MpMemRun", ["C11"])],
-  level_text="Theorem C11.json_projection_all_inputs: for every configuration, nesting limit, filter and input on which the unfiltered run returns Ok, the filtered run returns Ok, the "
+P("C11", module="AJ.Props.C11All", extra=[("AJ.Props.DocGen", ["C11"]), ("AJ.Props.C11", ["C11"]), ("AJ.Props.C11Full", ["C11"]), ("AJ.Props.C11Mp", ["C11"]), ("AJ.Props.C11Mem", ["C11"]), ("AJ.Props.C11Doc", ["C11"]), ("AJ.Props.C11Slot", ["C11"]), ("AJ.Props.C11MpSlot", ["C11"]), ("AJ.Props.C11MpDoc", ["C11"]), ("AJ.Props.C11MemRun", ["C11"]), ("AJ.Props.C11MpMemRun", ["C11"])],
+  level_text="C11.filtered_documents_are_source: on 14 filters x 9 inputs the filtered deserializer model leaves the document the compiled library leaves on every run (translator tie, kernel evaluation). Theorem C11.json_projection_all_inputs: for every configuration, nesting limit, filter and input on which the unfiltered run returns Ok, the filtered run returns Ok, the "
   "projection (lean/AJ/Spec/Filter.lean: recursive, `*` wildcard, first array element, false removes, null falls back to `*`) of the unfiltered document, and the same number of bytes consumed - "
   "repeated keys, dialect extensions and trailing bytes included; C11.skip_and_filter_simulate_parse: skipping a value leaves the reader in literally the same state as parsing it; "
   "C11.msgpack_projection_all_inputs: the same statement for deserializeMsgPack (members projected one by one, repeated keys kept, bin/ext as scalars), with msgpack_filter_simulates_parse for "
